@@ -324,7 +324,7 @@ theorem tagged_step (fuel : Nat) (ihT : TypeGoal e lx X fuel) (ihL : TaggedGoal 
       obtain ⟨cs, hcs⟩ := hcsi
       -- the invariant behind the element
       have hq : s.seqId ≤ s2.seqId := by rw [q2]; exact f1.seq
-      have hinv' := hinv.childStep (q' := s3.seqId) harm nf.canon nf.ord (by have := nf.uidlt; omega) nf.uidle
+      have hinv' := hinv.childStep (q' := s3.seqId) harm nf.canon nf.sibc nf.ord (by have := nf.uidlt; omega) nf.uidle
       have hnr' : NR arms (P ++ [.node i (symText e.symbols arm.tag) arm.block arm.ty info.startOff info.endOff
           (fields.map normField) its]) := by
         intro j a ha hrep
